@@ -41,13 +41,36 @@ class _Guard:
 
         self.old = signal.signal(signal.SIGALRM, self._fire)
         signal.setitimer(signal.ITIMER_REAL, self.seconds)
+        # a Python-level signal handler cannot run while the interpreter sits inside one long native z3 call: a watchdog
+        # thread asks z3 to give up (the call returns 'unknown'), the pending SIGALRM then raises CaseTimeout at once
+        import threading
+
+        self.lock = threading.Lock()
+        self.active = True
+        self.timer = threading.Timer(self.seconds + 0.3, self._interrupt_z3)
+        self.timer.daemon = True
+        self.timer.start()
         return self
+
+    def _interrupt_z3(self):
+        with self.lock:
+            if not self.active:
+                return
+            try:
+                import z3
+
+                z3.main_ctx().interrupt()
+            except Exception:
+                pass
 
     def __exit__(self, et, ev, tb):
         import signal
 
         signal.setitimer(signal.ITIMER_REAL, 0)
         signal.signal(signal.SIGALRM, self.old)
+        with self.lock:
+            self.active = False
+        self.timer.cancel()
         if et is CaseTimeout:
             self.ctx.count("case_timeouts")
             self.ctx.inconc(f"case exceeded {self.seconds}s guard", self.what if self.what is not None else self.ctx.current_case)
